@@ -1,6 +1,7 @@
 import Exetera.Props.C08
 import Exetera.Props.C10.Basic
 import Exetera.Model.KernelSitesSpans
+import Exetera.Model.KernelPathsSpans
 /-!
 # C10 — the span kernels (owning property: C08)
 
@@ -11,6 +12,14 @@ namespace Exetera.Props.C10
 open Exetera Exetera.Spans Exetera.Spec
 
 theorem access_sites_covered_spans : ∀ k ∈ KernelSites.spansSites, lookup k.1 = some k := by decide +kernel
+
+/-- the PATH CONDITION of every subscript occurrence in these kernels (enclosing loop guards, `if` / `elif` tests, negated
+    `else` branches and early exits), as regenerated from the current source (`Gen/KernelPaths.lean`), is exactly the one the
+    model was written against (`Model/KernelPathsSpans.lean`): dropping or changing a test that dominates a subscript breaks
+    the build; and the table covers exactly the kernels of the site table -/
+theorem access_paths_covered_spans :
+    (∀ k ∈ KernelPaths.spansPaths, lookupPaths k.1 = some k) ∧
+    KernelPaths.spansPaths.map (·.1) = KernelSites.spansSites.map (·.1) := by decide +kernel
 
 example : KernelSites.spansSites.length = 19 := by decide
 
